@@ -598,4 +598,92 @@ theorem map_snd_eq_map_get (d : List (String × β)) (hnd : (d.map (·.1)).Nodup
 
 end Dict
 
+/-! ### `min` / `max` over any comparison -/
+
+/-- Python's `min(values)` over any kind of value, `lt` being Python's `<` on them: walk the list and
+replace the candidate when the next value is smaller (`max` is `leastBy` of the flipped comparison). -/
+def leastBy {α : Type} (lt : α → α → Bool) : List α → Option α
+  | [] => none
+  | v :: vs => some (vs.foldl (fun m x => if lt x m then x else m) v)
+
+theorem least_eq_leastBy (vs : List Int) : least vs = leastBy (fun a b => decide (a < b)) vs := by
+  cases vs with
+  | nil => rfl
+  | cons v vs =>
+    simp only [least, leastBy]
+    congr 2
+    funext m x
+    by_cases h : x < m
+    · simp [h]; omega
+    · simp [h]; omega
+
+theorem greatest_eq_leastBy (vs : List Int) : greatest vs = leastBy (fun a b => decide (b < a)) vs := by
+  cases vs with
+  | nil => rfl
+  | cons v vs =>
+    simp only [greatest, leastBy]
+    congr 2
+    funext m x
+    by_cases h : m < x
+    · simp [h]; omega
+    · simp [h]; omega
+
+section
+variable {α : Type} (lt : α → α → Bool)
+
+theorem foldl_leastBy_spec (hirr : ∀ a, lt a a = false)
+    (htr : ∀ a b c, lt a b = true → lt b c = true → lt a c = true) (vs : List α) :
+    ∀ (v : α) (seen : List α), (∀ x ∈ seen, lt x v = false) →
+      (vs.foldl (fun m x => if lt x m then x else m) v) ∈ v :: vs
+      ∧ (∀ x ∈ seen, lt x (vs.foldl (fun m x => if lt x m then x else m) v) = false)
+      ∧ ∀ x ∈ v :: vs, lt x (vs.foldl (fun m x => if lt x m then x else m) v) = false := by
+  induction vs with
+  | nil =>
+    intro v seen hseen
+    exact ⟨by simp, hseen, by simp [hirr]⟩
+  | cons w ws ih =>
+    intro v seen hseen
+    simp only [List.foldl_cons]
+    by_cases h : lt w v = true
+    · simp only [h, if_true]
+      have hvw : lt v w = false := by
+        cases hvw : lt v w with
+        | false => rfl
+        | true => have := htr v w v hvw h; rw [hirr] at this; exact absurd this (by simp)
+      obtain ⟨h1, h2, h3⟩ := ih w (v :: seen) (by
+        intro x hx
+        simp only [List.mem_cons] at hx
+        rcases hx with rfl | hx
+        · exact hvw
+        · cases hxw : lt x w with
+          | false => rfl
+          | true => have := htr x w v hxw h; rw [hseen x hx] at this; exact absurd this (by simp))
+      refine ⟨List.mem_cons_of_mem _ h1, fun x hx => h2 x (List.mem_cons_of_mem _ hx), ?_⟩
+      intro x hx
+      simp only [List.mem_cons] at hx
+      rcases hx with rfl | hx
+      · exact h2 x (by simp)
+      · exact h3 x (by simp only [List.mem_cons]; exact hx)
+    · have h' : lt w v = false := by simpa using h
+      simp only [h', Bool.false_eq_true, if_false]
+      obtain ⟨h1, h2, h3⟩ := ih v (w :: seen) (by
+        intro x hx
+        simp only [List.mem_cons] at hx
+        rcases hx with rfl | hx
+        · exact h'
+        · exact hseen x hx)
+      refine ⟨?_, fun x hx => h2 x (List.mem_cons_of_mem _ hx), ?_⟩
+      · simp only [List.mem_cons] at h1 ⊢
+        rcases h1 with h1 | h1
+        · exact Or.inl h1
+        · exact Or.inr (Or.inr h1)
+      intro x hx
+      simp only [List.mem_cons] at hx
+      rcases hx with rfl | rfl | hx
+      · exact h3 x (by simp)
+      · exact h2 x (by simp)
+      · exact h3 x (by simp only [List.mem_cons]; exact Or.inr hx)
+
+end
+
 end GroupBy
